@@ -32,8 +32,10 @@ class Killed(BaseException):
 
 
 class Controller:
-    def __init__(self, mode: str = "record", at: int = -1, nbytes: int = 0, err: int = _errno.ENOSPC, root: str | None = None) -> None:
+    def __init__(self, mode: str = "record", at: int = -1, nbytes: int = 0, err: int = _errno.ENOSPC, root: str | None = None,
+                 then_kill_at: int = -1) -> None:
         self.mode, self.at, self.nbytes, self.err = mode, at, nbytes, err
+        self.then_kill_at = then_kill_at      # fault SEQUENCE: after the (non-fatal) fault at `at`, die before this later operation
         self.root = os.path.realpath(root) if root else None
         self.ops: list[tuple] = []
         self.dead = False
@@ -54,6 +56,9 @@ class Controller:
             return "skip"
         idx = len(self.ops)
         self.ops.append((kind,) + info)
+        if idx == self.then_kill_at and self.fired:
+            self.dead = True
+            raise Killed(f"killed before op {idx} {kind} (after an earlier injected error)")
         if idx == self.at and not self.fired:
             self.fired = True
             if self.mode == "kill":
